@@ -101,4 +101,91 @@ StringOf(t, o, first, size) ==
                       \o <<44, 32>> \o SizeText(size)
   ELSE IF t = 14 THEN WithReason(fb \o SP \o SizeText(size), o["ReasonCode"], o["ReasonString"])
   ELSE fb \o SP \o SizeText(size)
+
+(***************************************************************************)
+(* What Dump prints (as built): one line "Label: value" per accessor in    *)
+(* the order of MQLibText!DumpSpec, then the will (CONNECT), the filters   *)
+(* (SUBSCRIBE, UNSUBSCRIBE) and the user properties.  Go's %v prints a     *)
+(* []byte as [1 2 3]; %q quotes.  Only values whose quoting is plain       *)
+(* (printable ASCII) are predicted; everything else is left alone.         *)
+(***************************************************************************)
+NL == <<10>>
+BoolKeys == {"CleanStart", "RequestProblemInfo", "RequestResponseInfo", "RetainAvailable", "SessionPresent", "SharedSubAvailable",
+             "SubIdentifiersAvailable", "WildcardSubAvailable", "Duplicate", "PayloadFormat", "Retain"}
+U32Keys == {"MaxPacketSize", "SessionExpiryInterval", "MessageExpiryInterval"}
+NumKeys == {"KeepAlive", "ProtocolVersion", "ReceiveMax", "TopicAliasMax", "MaxQoS", "ServerKeepAlive", "PacketID", "QoS", "TopicAlias"}
+ByteListKeys == {"AuthData", "CorrelationData", "Payload", "ReasonCodes"}
+
+(* decimal text of a 32-bit value held as <<hi16, lo16>>, by long division (TLC integers are 32-bit signed) *)
+RECURSIVE DecPairR(_, _)
+DecPairR(hi, lo) ==
+  IF hi = 0 THEN DecR(lo)
+  ELSE LET qh == hi \div 10  rh == hi % 10
+           rest == rh * 65536 + lo
+       IN DecPairR(qh, rest \div 10) \o <<48 + (rest % 10)>>
+DecPair(pr) == DecPairR(pr[1], pr[2])
+
+RECURSIVE SpaceJoin(_)
+SpaceJoin(ts) == IF ts = <<>> THEN <<>> ELSE IF Len(ts) = 1 THEN ts[1] ELSE ts[1] \o SP \o SpaceJoin(Tail(ts))
+ListText(ts) == <<91>> \o SpaceJoin(ts) \o <<93>>
+
+PlainText(x) == \A i \in 1..Len(x) : x[i] >= 32 /\ x[i] <= 126
+RECURSIVE Escaped(_)
+Escaped(x) == IF x = <<>> THEN <<>>
+              ELSE (IF x[1] \in {34, 92} THEN <<92, x[1]>> ELSE <<x[1]>>) \o Escaped(Tail(x))
+Quoted(x) == <<34>> \o (IF \E i \in 1..Len(x) : x[i] \in {34, 92} THEN Escaped(x) ELSE x) \o <<34>>
+BoolText(b) == IF b THEN TxtTrue ELSE TxtFalse
+
+ValueText(key, val, f) ==
+  IF f \in {"q", "qb"} THEN Quoted(val)
+  ELSE IF f = "sq" THEN Quoted(IF Len(val) = 0 THEN <<>> ELSE TxtStars)
+  ELSE IF f = "sv" THEN (IF Len(val) = 0 THEN <<>> ELSE TxtStars)
+  ELSE IF key \in BoolKeys THEN BoolText(val)
+  ELSE IF key \in U32Keys THEN DecPair(val)
+  ELSE IF key \in NumKeys THEN Dec(val)
+  ELSE IF key = "ReasonCode" THEN ReasonCodeText(val)
+  ELSE IF key \in ByteListKeys THEN ListText([i \in 1..Len(val) |-> Dec(val[i])])
+  ELSE IF key = "SubscriptionIDs" THEN ListText([i \in 1..Len(val) |-> DecPair(val[i])])
+  ELSE val                                                      \* text as it is
+
+FieldLines(t, o) ==
+  LET ds == DumpSpec(t) IN
+  Concat([i \in 1..Len(ds) |-> ds[i].label \o <<58, 32>> \o ValueText(ds[i].key, o[ds[i].key], ds[i].f) \o NL])
+
+UserPropLines(ups) ==
+  IF Len(ups) = 0 THEN <<>>
+  ELSE TxtUserProperties \o NL
+       \o Concat([i \in 1..Len(ups) |-> <<32, 32>> \o Dec(i - 1) \o <<46, 32>> \o ups[i][1] \o <<58, 32>> \o Quoted(ups[i][2]) \o NL])
+
+(* the will of a decoded CONNECT is a PUBLISH of its own: the fields a will cannot carry are at their defaults *)
+WillAsPublish(w) == w @@ [Duplicate |-> FALSE, PacketID |-> 0, SubscriptionIDs |-> <<>>, TopicAlias |-> 0]
+
+DumpOf(t, o) ==
+  IF t \in {0, 12, 13} THEN <<>>
+  ELSE FieldLines(t, o)
+       \o (IF t = 1 /\ o["Will"].has
+           THEN TxtWill \o NL \o FieldLines(3, WillAsPublish(o["Will"].val)) \o UserPropLines(o["Will"].val["UserProperties"])
+           ELSE <<>>)
+       \o (IF t = 8 /\ o["SubscriptionID"] # -1 THEN TxtSubscriptionID \o <<58, 32>> \o Dec(o["SubscriptionID"]) \o NL ELSE <<>>)
+       \o (IF t \in {8, 10} /\ Len(o["Filters"]) > 0
+           THEN TxtFilters \o NL
+                \o Concat([i \in 1..Len(o["Filters"]) |-> <<32, 32>> \o Dec(i - 1) \o <<46, 32>>
+                                                           \o (IF t = 8 THEN FilterText(o["Filters"][i]) ELSE o["Filters"][i]) \o NL])
+           ELSE <<>>)
+       \o UserPropLines(o["UserProperties"])
+
+(* Dump is predicted only where the quoting of every quoted value is plain *)
+Short(v) == Len(v) <= 300             \* (long values are left alone: predicting them costs more than it tells)
+DumpPredictable(t, o) ==
+  LET ds == DumpSpec(t) IN
+  /\ \A i \in 1..Len(ds) : /\ ds[i].key \in DOMAIN o
+                            /\ (ds[i].f \in {"q", "qb"} => PlainText(o[ds[i].key]) /\ Short(o[ds[i].key]))
+                            /\ (ds[i].key \notin BoolKeys \cup U32Keys \cup NumKeys \cup {"ReasonCode"} => Short(o[ds[i].key]))
+  /\ (t \in {8, 10} => Len(o["Filters"]) <= 20 /\ \A i \in 1..Len(o["Filters"]) : Short(IF t = 8 THEN o["Filters"][i][1] ELSE o["Filters"][i]))
+  /\ ("UserProperties" \in DOMAIN o => Len(o["UserProperties"]) <= 20 /\ \A i \in 1..Len(o["UserProperties"]) :
+                                                Short(o["UserProperties"][i][1]) /\ Short(o["UserProperties"][i][2]))
+  /\ (t = 1 /\ o["Will"].has => \A x \in {"TopicName", "Payload", "ContentType", "ResponseTopic", "CorrelationData"} : Short(o["Will"].val[x]))
+  /\ ("UserProperties" \in DOMAIN o => \A i \in 1..Len(o["UserProperties"]) : PlainText(o["UserProperties"][i][2]))
+  /\ (t = 1 /\ o["Will"].has => /\ "ref" \notin DOMAIN o["Will"]
+                                 /\ \A i \in 1..Len(o["Will"].val["UserProperties"]) : PlainText(o["Will"].val["UserProperties"][i][2]))
 =============================================================================
